@@ -45,16 +45,17 @@ class Fact:
 
 def _atom(test, pol):
     if isinstance(test, ast.BoolOp):
-        # order-insensitive rendering of and/or over canonical sub-atoms
+        # order-insensitive rendering over canonical sub-atoms; a disjunction is written as the negated conjunction of the negated
+        # parts (de Morgan), so `a or b`, `not (not a and not b)` and their operand orders share one key
+        is_or = isinstance(test.op, ast.Or)
         parts = []
         for v in test.values:
-            fs = implied(v, True)
+            fs = implied(v, not is_or)
             if len(fs) == 1:
                 parts.append(('' if fs[0].pol else 'not ') + fs[0].text)
             else:
                 parts.append('(' + ' and '.join(sorted(('' if f.pol else 'not ') + f.text for f in fs)) + ')')
-        j = ' and ' if isinstance(test.op, ast.And) else ' or '
-        return Fact(j.join(sorted(parts)), pol, test)
+        return Fact(' and '.join(sorted(parts)), (not pol) if is_or else pol, test)
     if isinstance(test, ast.Compare) and len(test.ops) == 1:
         op = test.ops[0]
         a, b = test.left, test.comparators[0]
@@ -70,6 +71,17 @@ def _atom(test, pol):
             op, pol, a, b = ast.Lt(), not pol, b, a
         elif isinstance(op, ast.Gt):           # a > b   ==  b < a
             op, a, b = ast.Lt(), b, a
+        # sizes are integers: every comparison of len(X) with an integer constant is written  k < len(X)
+        def _is_len(x):
+            return isinstance(x, ast.Call) and isinstance(x.func, ast.Name) and x.func.id == 'len' and len(x.args) == 1
+
+        def _int(x):
+            return isinstance(x, ast.Constant) and isinstance(x.value, int) and not isinstance(x.value, bool)
+        if isinstance(op, ast.Lt) and _is_len(a) and _int(b):              # len(X) < c   ==  not (c-1 < len(X))
+            return Fact('%d < %s' % (b.value - 1, norm(a)), not pol, test, '<', ast.Constant(value=b.value - 1), a)
+        if isinstance(op, ast.Eq) and ((_is_len(a) and _int(b) and b.value == 0) or (_is_len(b) and _int(a) and a.value == 0)):
+            ln = a if _is_len(a) else b                                     # len(X) == 0  ==  not (0 < len(X))
+            return Fact('0 < %s' % norm(ln), not pol, test, '<', ast.Constant(value=0), ln)
         if isinstance(op, (ast.Eq, ast.Is)):
             ta, tb = norm(a), norm(b)
             if tb < ta:
@@ -107,6 +119,11 @@ def canon_test(node):
     if len(fs) == 1:
         return ('' if fs[0].pol else 'not ') + fs[0].text
     return ' and '.join(sorted(('' if f.pol else 'not ') + f.text for f in fs))
+
+
+def nonempty_keys(text, pol=True):
+    """Keys under which code may test that the sized container ``text`` is non-empty (pol True) / empty (pol False): a length comparison or plain truthiness."""
+    return {('0 < len(%s)' % text, pol), (text, pol)}
 
 
 def fact_key(expr_text, pol=True):
@@ -597,6 +614,27 @@ class CFG:
             for e in n.succ:
                 push(n, e)
         return None
+
+    def reaching_defs(self, node, name):
+        """Assignment nodes ``name = ...`` (plain or augmented) whose value can reach ``node`` without being overwritten."""
+        defs = [n for n in self.nodes if n.kind == 'stmt' and isinstance(n.ast, (ast.Assign, ast.AugAssign, ast.AnnAssign)) and
+                any(norm(t) == name for t in (n.ast.targets if isinstance(n.ast, ast.Assign) else [n.ast.target]))]
+        out = []
+        for d in defs:
+            if d is node:
+                continue
+            others = [x for x in defs if x is not d]
+            if self.path_avoiding(d, [node], avoid=others) is not None:
+                out.append(d)
+        return out
+
+    def resolve_local(self, node, expr):
+        """``expr`` if it is not a plain name; otherwise the value of its single reaching plain assignment at ``node`` (one level), else ``expr``."""
+        if isinstance(expr, ast.Name):
+            ds = self.reaching_defs(node, expr.id)
+            if len(ds) == 1 and isinstance(ds[0].ast, ast.Assign) and len(ds[0].ast.targets) == 1 and isinstance(ds[0].ast.targets[0], ast.Name):
+                return ds[0].ast.value
+        return expr
 
     def all_paths_pass(self, src, targets, through):
         """True iff every path from ``src`` to ``targets`` enters a node of ``through``."""
